@@ -1,6 +1,8 @@
 """
 C15 — docstring prose outside the parameter section is preserved (necessary part).
 
+C15.tokens : the token sets _get_token_start_idx matches by prefix hold only marked tokens (':x' / 'X:'), bare-word
+             numpydoc titles are matched as a whole line with an underline test.
 C15.tile : in parse_docstring_into_header_args_footer the three returned parts are untransformed
            slices of the docstring sharing their boundaries: header = S[:a], args = S[a:b],
            footer = S[b:], with a, b computed by the token-index functions on the very string that is
@@ -18,9 +20,84 @@ TRANSFORMS = frozenset(
 )
 
 
+def _tokens(ctx, index):
+    """
+    C15.tokens. _get_token_start_idx decides where the prose ends by testing every line against token sets.
+    A set that is matched by PREFIX (`line.startswith`) must contain only marked tokens — a field marker that
+    starts with ':' or a section title that ends with ':' — never a bare word: a header sentence whose first
+    word is `Returns` / `Parameters` / `Raises` is otherwise taken for a section start and the prose from there
+    on is moved into the parameter part and dropped by every conversion. A bare-word title may only be matched
+    as a WHOLE line (`line in S`) whose next line is an underline. The sets are folded from the module.
+    """
+    from ..fold import ModuleEnv, Unknown
+
+    env = ModuleEnv(index)
+    f = index.func("cdd.shared.docstring_utils._get_token_start_idx")
+    prefix_sets, whole_sets = [], []
+    for n in iter_own(f.node):
+        # any(filter(line.startswith, S)) / any(map(line.startswith, S)) / any(line.startswith(t) for t in S) / line.startswith(tuple(S))
+        if isinstance(n, ast.Call) and norm(n.func) in ("filter", "map") and len(n.args) == 2 and isinstance(n.args[0], ast.Attribute) and n.args[0].attr == "startswith":
+            prefix_sets.append(n.args[1])
+        elif isinstance(n, ast.GeneratorExp) and isinstance(n.elt, ast.Call) and isinstance(n.elt.func, ast.Attribute) and n.elt.func.attr == "startswith" and len(n.generators) == 1:
+            prefix_sets.append(n.generators[0].iter)
+        elif isinstance(n, ast.Call) and isinstance(n.func, ast.Attribute) and n.func.attr == "startswith" and n.args and isinstance(n.args[0], ast.Call) and norm(n.args[0].func) == "tuple":
+            prefix_sets.append(n.args[0].args[0])
+        elif isinstance(n, ast.Compare) and len(n.ops) == 1 and isinstance(n.ops[0], ast.In) and isinstance(n.comparators[0], (ast.Name, ast.Attribute)):
+            whole_sets.append(n.comparators[0])
+    ctx.need(prefix_sets, "_get_token_start_idx no longer matches lines against a token set by prefix")
+    n_tok = 0
+    for e in prefix_sets:
+        try:
+            toks = env.in_module(f.mod, e)
+        except Unknown as x:
+            ctx.need(False, "cannot fold the token set `{}` matched by prefix: {}".format(norm(e), x))
+        for t in sorted(toks):
+            n_tok += 1
+            marked = isinstance(t, str) and (t.startswith(":") or t.rstrip().endswith(":"))
+            ctx.ob(
+                "C15.tokens",
+                f,
+                "prefix-matched token {!r}".format(t),
+                marked,
+                ""
+                if marked
+                else "a line that merely STARTS WITH the bare word {!r} is taken for the start of the parameter section: a header "
+                "sentence such as `{} the ...` and all prose after it is lost in every conversion".format(t, t),
+                line=e.lineno,
+            )
+    # bare-word titles matched as a whole line must be confirmed by an underline test in the same arm
+    for e in whole_sets:
+        try:
+            toks = env.in_module(f.mod, e)
+        except Unknown:
+            continue
+        if not isinstance(toks, (set, frozenset, list, tuple)) or not all(isinstance(t, str) for t in toks):
+            continue
+        bare = [t for t in toks if not (t.startswith(":") or t.rstrip().endswith(":"))]
+        if not bare:
+            continue
+        arm = f.mod.parents.get(f.mod.parents.get(e))
+        while arm is not None and not isinstance(arm, ast.If):
+            arm = f.mod.parents.get(arm)
+        underline = arm is not None and any(
+            isinstance(c, ast.Compare) and "count('-')" in norm(c) for b in arm.body for c in ast.walk(b)
+        )
+        ctx.ob(
+            "C15.tokens",
+            f,
+            "whole-line titles {} need an underline".format(sorted(bare)),
+            underline,
+            "" if underline else "a line equal to one of {} starts a section without its underline being checked".format(sorted(bare)),
+            line=e.lineno,
+        )
+    ctx.count("prefix_matched_tokens", n_tok)
+    ctx.floor("tokens matched by prefix", n_tok, 8)
+
+
 def run(ctx):
     """entry"""
     index = ctx.index
+    ctx.section(_tokens, ctx, index)
     ctx.explanation = (
         "Def-use shape of the three values returned by parse_docstring_into_header_args_footer: each must be "
         "a plain slice of the input string at boundaries produced by _get_token_start_idx / "
